@@ -191,6 +191,23 @@ def run_main(spec, acc):
         if n.btype == 'Partial' and rng.random() < 0.3 and not n.pos:
           n.kw = {k: v for k, v in n.kw.items() if isinstance(v, gen.Leaf) and False}
           n.tags = {}
+    # an explicit value equal to a MUTABLE default that is also referenced elsewhere: it must
+    # not be trimmed (trimming would break the alias)
+    muts = [n for n in gen.walk(root) if isinstance(n, gen.B) and n.fn is kinds.mutdef and 'a' not in n.kw]
+    if muts and rng.random() < 0.7:
+      n = rng.choice(muts)
+      shared_list = gen.Seq('list', [gen.Leaf('shared'), gen.Leaf('default')])
+      n.kw['a'] = shared_list
+      hosts = [b for b in gen.walk(root) if isinstance(b, gen.B) and b.btype != 'TaggedValue'
+               and b is not n and b.fn in (kinds.node, kinds.node2, kinds.two, kinds.three)]
+      from vf import dagedit
+      hosts = [b for b in hosts if dagedit.free_kw(b)]
+      if hosts:
+        h = rng.choice(hosts)
+        h.kw[rng.choice(dagedit.free_kw(h))] = shared_list
+      else:
+        n.kw['d'] = shared_list
+      acc.obs('shared_value_equal_to_mutable_default')
     # some TaggedValues without a value (build must fail before and after)
     if rng.random() < 0.1:
       for n in gen.walk(root):
@@ -284,7 +301,7 @@ def run_main(spec, acc):
 
 def run_inline(spec, acc):
   for _, rng in acc.cases(spec):
-    which = rng.choice(['outer', 'outer', 'outer_pos', 'direct', 'direct_pos'])
+    which = rng.choice(['outer', 'outer', 'outer_pos', 'direct', 'direct_pos', 'direct_po_gap'])
     acc.obs('inline_cases')
     v = rng.choice([1, 'v', (1, 2)])
     try:
@@ -295,6 +312,10 @@ def run_inline(spec, acc):
       elif which == 'direct':
         cfg = fdl.Config(kinds.three, a=fdl.Config(acfns.pipeline, v, size=rng.choice([1, 9])),
                          b=fdl.Config(acfns.pipeline, name='k', flag=v))
+      elif which == 'direct_po_gap':
+        inner = fdl.Config(acfns.pipeline_po, v)
+        inner[2] = 500                      # later positional-only set, earlier one left unset
+        cfg = fdl.Config(kinds.three, a=inner)
       else:
         cfg = fdl.Config(kinds.three, a=fdl.Config(acfns.pipeline_pos, v, 4, 'r', a=1))
     except Exception as e:  # pylint: disable=broad-except
